@@ -135,11 +135,15 @@ def run(repo, rep, tier):
     return None
   impact = sym.to_sym(ex, make_leaf(fe, custom=leaf_e))
   want_args = ['self._par.n_test', 'len(self.y)', 'self._par.flevel', 'self._par.sig_level', 'self._par.power_level']
-  rep.check(call_args.get('args') == want_args, 'R3/arguments', 'the multiplier is evaluated at (n_test, len(y), flevel, sig_level, power_level)', fe.qualname,
-            '_impact_estimate(%s)' % ', '.join(call_args.get('args', [])), 'the impact multiplier is evaluated at (%s) instead of (%s)'
-            % (', '.join(call_args.get('args', [])), ', '.join(want_args)), fe.loc())
-  rep.check(call_args.get('std') == ('self.y', '2'), 'R2/dependence', 'sigma uses std(y, ddof=2)', fe.qualname, 'np.std%s' % (call_args.get('std'),),
-            'the residual scale is built from std%s, not from std(self.y, ddof=2)' % (call_args.get('std'),), fe.loc())
+  if call_args.get('args') is not None and any(a.startswith('*') or not re.fullmatch(r"[\w.]+(\([\w.]*\))?", a) for a in call_args['args']) and call_args['args'] != want_args:
+    rep.undecided('R3/arguments', 'estimate_required_impact', 'the multiplier is called as _impact_estimate(%s): the arguments are not plain access paths' % ', '.join(call_args['args'])[:120], fe.loc())
+  else:
+   rep.check3(None if call_args.get('args') is None else call_args.get('args') == want_args, 'R3/arguments', 'the multiplier is evaluated at (n_test, len(y), flevel, sig_level, power_level)', fe.qualname,
+            '_impact_estimate(%s)' % ', '.join(call_args.get('args') or []), 'the impact multiplier is evaluated at (%s) instead of (%s)'
+            % (', '.join(call_args.get('args') or []), ', '.join(want_args)), fe.loc(), why_open='no visible call of self._impact_estimate in the returned expression')
+  rep.check3(None if call_args.get('std') is None else call_args.get('std') == ('self.y', '2'), 'R2/dependence', 'sigma uses std(y, ddof=2)', fe.qualname, 'np.std%s' % (call_args.get('std'),),
+             'the residual scale is built from std%s, not from std(self.y, ddof=2)' % (call_args.get('std'),), fe.loc(),
+             why_open='no visible numpy.std call in the returned expression of estimate_required_impact')
   # 3. tbrfit: scale, cihw, estimate
   ctx3, r3 = value_of(ft)
   rv = canon.of(repo).expr(ctx3.rd.expand(r3, r3.ast.value, depth=20)[0])
@@ -187,38 +191,55 @@ def run(repo, rep, tier):
   vx = sym.symbol('var(self._x,ddof=0)', True)
   xt_, xm_ = sym.symbol('xt'), sym.symbol('xm')
   cihw, scale = (sympy.simplify(z.subs(vx, (xt_ - xm_) ** 2 / dv)) for z in (cihw, scale))
-  uses_var = vx in (sym.to_sym(rv.args[3], lt)).free_symbols
-  rep.check(uses_var, 'R1/calibration', 'the displacement is normalised by var(x, ddof=0)', ft.qualname, 'scale = %s' % sympy.sstr(scale)[:120],
-            'the TBR scale does not use (xt - mean(x))^2 / var(x, ddof=0) as displacement term', ft.loc())
+  raw_scale = sym.to_sym(rv.args[3], lt)
+  uses_var = vx in raw_scale.free_symbols
+  scale_known = {str(x_) for x_ in (n_test, n, sig, sigma)} | {'xt', 'yt', 'xm', 'ym', 'b', 't_ppf', 'f_ppf', str(vx)}
+  al0 = sym.aliens(raw_scale, scale_known)
+  rep.check3(True if uses_var else (None if al0 else False), 'R1/calibration', 'the displacement is normalised by var(x, ddof=0)', ft.qualname, 'scale = %s' % sympy.sstr(scale)[:120],
+             'the TBR scale does not use (xt - mean(x))^2 / var(x, ddof=0) as displacement term', ft.loc(),
+             why_open='the scale contains quantities the expansion did not resolve (%s)' % ', '.join(al0)[:100])
   # R1 identities
   dv_plan = f_ppf(flevel, 1, n - 1) * (n + 1) / (n_test * (n - 1))
   sigma_d = std_y * sympy.sqrt(1 - corr ** 2)
   scale_plan = scale.subs({sigma: sigma_d, dv: dv_plan})
   want = (t_ppf(sig, n - 2) + t_ppf(power, n - 2)) * scale_plan
-  ok1 = sympy.simplify(impact ** 2 - want ** 2) == 0 and sympy.simplify(sympy.powsimp(impact / want, force=True)) == 1
-  rep.check(ok1, 'R1/calibration', 'required impact == (tq_sig + tq_pow) * TBR scale at the planning displacement', fe.qualname,
-            'impact = %s' % sympy.sstr(impact)[:200],
-            'the required impact `%s` is not (t_ppf(sig_level, n-2) + t_ppf(power_level, n-2)) times the posterior scale `%s` of the TBR fit at the planning displacement: the design is no longer calibrated to the post-analysis test'
-            % (sympy.sstr(impact)[:160], sympy.sstr(scale_plan)[:120]), fe.loc())
-  ok2 = sympy.simplify(cihw - t_ppf(sig, n - 2) * scale) == 0
-  rep.check(ok2, 'R1/calibration', 'half-width == t_ppf(sig_level, n-2) * scale', ft.qualname, 'cihw = %s' % sympy.sstr(cihw)[:160],
-            'the credible half-width `%s` is not t_ppf(sig_level, n-2) * scale `%s`' % (sympy.sstr(cihw)[:120], sympy.sstr(scale)[:120]), ft.loc())
+  known = {str(x_) for x_ in (n_test, n, flevel, sig, power, std_y, corr, sigma, dv)} | {'xt', 'yt', 'xm', 'ym', 'b', 't_ppf', 'f_ppf'}
+  eq1 = lambda a_, b_: sympy.simplify(a_ ** 2 - b_ ** 2) == 0 and sympy.simplify(sympy.powsimp(a_ / b_, force=True)) == 1
+  open_scale = sym.aliens(scale, known)
+  ok1, al1 = sym.verdict(impact, want, {str(x_) for x_ in (n_test, n, flevel, sig, power, std_y, corr)} | {'t_ppf', 'f_ppf'}, eq=eq1)
+  if not ok1 and open_scale:
+    ok1, al1 = None, open_scale
+  rep.check3(ok1, 'R1/calibration', 'required impact == (tq_sig + tq_pow) * TBR scale at the planning displacement', fe.qualname,
+             'impact = %s' % sympy.sstr(impact)[:200],
+             'the required impact `%s` is not (t_ppf(sig_level, n-2) + t_ppf(power_level, n-2)) times the posterior scale `%s` of the TBR fit at the planning displacement: the design is no longer calibrated to the post-analysis test'
+             % (sympy.sstr(impact)[:160], sympy.sstr(scale_plan)[:120]), fe.loc(),
+             why_open='the impact / scale terms contain quantities the expansion did not resolve (%s)' % ', '.join(al1)[:100])
+  ok2, al2 = sym.verdict(cihw, t_ppf(sig, n - 2) * scale, known)
+  if not ok2 and open_scale:
+    ok2, al2 = None, open_scale
+  rep.check3(ok2, 'R1/calibration', 'half-width == t_ppf(sig_level, n-2) * scale', ft.qualname, 'cihw = %s' % sympy.sstr(cihw)[:160],
+             'the credible half-width `%s` is not t_ppf(sig_level, n-2) * scale `%s`' % (sympy.sstr(cihw)[:120], sympy.sstr(scale)[:120]), ft.loc(),
+             why_open='the half-width / scale terms contain quantities the expansion did not resolve (%s)' % ', '.join(al2)[:100])
   xt, yt, xm, ym, b = (sym.symbol(s_) for s_ in ('xt', 'yt', 'xm', 'ym', 'b'))
-  ok3 = sympy.simplify(est - n_test * ((yt - ym) - b * (xt - xm))) == 0
-  rep.check(ok3, 'R1/calibration', 'point estimate == n_test * (dy - b*dx)', ft.qualname, 'estimate = %s' % sympy.sstr(est)[:160],
-            'the TBR point estimate `%s` is not n_test*((yt - mean(y)) - b*(xt - mean(x)))' % sympy.sstr(est)[:140], ft.loc())
+  ok3, al3 = sym.verdict(est, n_test * ((yt - ym) - b * (xt - xm)), known)
+  rep.check3(ok3, 'R1/calibration', 'point estimate == n_test * (dy - b*dx)', ft.qualname, 'estimate = %s' % sympy.sstr(est)[:160],
+             'the TBR point estimate `%s` is not n_test*((yt - mean(y)) - b*(xt - mean(x)))' % sympy.sstr(est)[:140], ft.loc(),
+             why_open='the estimate contains quantities the expansion did not resolve (%s)' % ', '.join(al3)[:100])
   ok4 = sympy.simplify(sg - sigma) == 0
   rep.check(ok4, 'R1/calibration', 'tbrfit reports the residual sigma it used', ft.qualname, 'sigma = %s' % sympy.sstr(sg)[:80], 'tbrfit reports another sigma', ft.loc(), nontrivial=False)
   # R2 dependence shape
   K = sympy.simplify(impact / (std_y * sympy.sqrt(1 - corr ** 2)))
   free = K.free_symbols & {std_y, corr}
-  rep.check(not free, 'R2/dependence', 'impact = K(parameters) * std(y, ddof=2) * sqrt(1 - corr^2): linear in the unit, shift invariant', fe.qualname,
+  al_imp = sym.aliens(impact, {str(x_) for x_ in (n_test, n, flevel, sig, power, std_y, corr)} | {'t_ppf', 'f_ppf'})
+  rep.check3(True if not free else (None if al_imp else False), 'R2/dependence', 'impact = K(parameters) * std(y, ddof=2) * sqrt(1 - corr^2): linear in the unit, shift invariant', fe.qualname,
             'impact / (std_y*sqrt(1-corr^2)) = %s' % sympy.sstr(K)[:160],
-            'the required impact does not factor as K * std(y) * sqrt(1 - corr^2) (residual dependence on %s): it is not linear in the response unit / not a function of |corr| of the documented shape' % free, fe.loc())
+            'the required impact does not factor as K * std(y) * sqrt(1 - corr^2) (residual dependence on %s): it is not linear in the response unit / not a function of |corr| of the documented shape' % free, fe.loc(),
+            why_open='the impact contains quantities the expansion did not resolve (%s)' % ', '.join(al_imp)[:100])
   even = sympy.simplify(impact - impact.subs(corr, -corr)) == 0
   dlog = sympy.simplify(sympy.diff(impact, corr) / impact + corr / (1 - corr ** 2))
-  rep.check(even and dlog == 0, 'R2/dependence', 'impact is even in corr and strictly decreasing in |corr| (d log impact / d corr = -corr/(1-corr^2))', fe.qualname,
-            'd/dcorr log(impact) + corr/(1-corr^2) = %s' % sympy.sstr(dlog)[:80], 'the required impact is not strictly decreasing in |corr|', fe.loc())
+  rep.check3(True if (even and dlog == 0) else (None if al_imp else False), 'R2/dependence', 'impact is even in corr and strictly decreasing in |corr| (d log impact / d corr = -corr/(1-corr^2))', fe.qualname,
+            'd/dcorr log(impact) + corr/(1-corr^2) = %s' % sympy.sstr(dlog)[:80], 'the required impact is not strictly decreasing in |corr|', fe.loc(),
+            why_open='the impact contains quantities the expansion did not resolve (%s)' % ', '.join(al_imp)[:100])
   # R3 required_impact uses the object's own correlation
   g = cls.getters.get('required_impact')
   if g is None:
